@@ -157,3 +157,36 @@ Example C04_cauchy_schwarz_nonvacuous :
   well_placed cs_state cs_K cs_y1 /\ well_placed cs_state cs_K cs_y2 /\
   (exists c, std_covariance_real RNum cs_state cs_y1 cs_y2 = Ok c /\ c <> 0).
 Proof. exact cs_hypotheses_hold. Qed.
+
+(* ---------- uncertain complex numbers: a 4-element covariance passed to ucomplex is
+   reproduced by variance() (the matrix cprop_v assembles from the variances of the two
+   components and their covariance, CKernel.v), in every reachable session state ---------- *)
+From GTCV Require Import Cplx CplxR CKernel CVariance.
+
+Theorem C04_ucomplex_covariance_matrix_reproduced :
+  forall (s : KTypes.state R) zr zi vr c vi df label indep s' re im,
+    Inv RNum s -> 0 < vr -> 0 < vi -> c <> 0 ->
+    ucomplex_decl RCNum s (@PC RCNum zr zi) (USeq4 vr c c vi) df label indep = Ok (s', DElem RCNum re im) ->
+    prop_v RNum s' re None = Ok (vr, None) /\
+    prop_v RNum s' im None = Ok (vi, None) /\
+    std_covariance_real RNum s' re im = Ok c /\
+    std_covariance_real RNum s' im re = Ok c.
+Proof. exact ucomplex_covariance_reproduced. Qed.
+Print Assumptions C04_ucomplex_covariance_matrix_reproduced.
+
+(* and for the (u_r, u_i, r) form: variances u_r^2, u_i^2, covariance u_r r u_i, both orders *)
+Theorem C04_ucomplex_elementary_variance :
+  forall (s : KTypes.state R), Inv RNum s ->
+  forall zr zi u_r u_i r df label s' re im,
+    celementary RCNum s zr zi u_r u_i (Some r) df label false = Ok (s', re, im) ->
+    prop_v RNum s' re None = Ok (u_r * u_r, None) /\
+    prop_v RNum s' im None = Ok (u_i * u_i, None) /\
+    std_covariance_real RNum s' re im = Ok (u_r * r * u_i) /\
+    std_covariance_real RNum s' im re = Ok (u_r * r * u_i).
+Proof. exact celementary_variance. Qed.
+Print Assumptions C04_ucomplex_elementary_variance.
+
+Example C04_ucomplex_covariance_nonvacuous :
+  exists s' re im,
+    ucomplex_decl RCNum (init RNum 1) (@PC RCNum 1 2) (USeq4 4 1 1 9) DInf None true = Ok (s', DElem RCNum re im).
+Proof. exact ucomplex_covariance_nonvacuous. Qed.
